@@ -19,7 +19,7 @@ ASSUMPTIONS = ['data excludes ~ * : (the converter\'s fixed output delimiters; X
                'the id of the <comp> wrapper element is not asserted (the property names elements and components)',
                'the intended map path of each segment is the generator\'s ground truth (unambiguous sub-language, DESIGN 4.1)']
 REQUIRED_COUNTERS = ['docs', 'segments-compared', 'elements-compared', 'subelements-compared', 'roundtrips', 'docs:escaped-chars', 'docs:repeated-loop', 'docs:notused-filled', 'reach:x12xml_simple.seg']
-MIN_CASES = {'quick': 250, 'thorough': 8000}
+MIN_CASES = {'quick': 200, 'thorough': 6000}
 WATCHDOG_S = {'quick': 1200, 'thorough': 7200}
 
 TERMS = [('~', '*', ':'), ('!', '|', '>'), ('\n', '|', '^'), ('\x1c', '\x1d', '<'), ('$', '+', '\\'), ('}', '{', ';'), ('\x1e', '\x1f', '&')]
